@@ -76,7 +76,10 @@ var properties = []Property{
 		Rules:     []string{"CSV.route", "CODEC.pair", "CODEC.reader", "DIM.runes", "OPT.chain", "OPT.nointerference", "SCAN.balance", "SCAN.symbol", "MAP.flow", "MAP.order", "MAP.split", "MAP.disable"},
 		Technique: "registration-sequence extraction of the CSV state table and its mirror in the word state, codec pair agreement, main-loop model, abstract interpretation of the CSV states",
 	},
-	 {ID: "C10"},
+	{ID: "C10", Title: "Mustache rendering equals the reference semantics; malformed input is rejected",
+		Rules:     []string{"MUS.lexer", "MUS.section", "MUS.render", "MUS.verbatim", "GRAM.deaderr", "GRAM.errprop", "PANIC.nilres", "NAME.fold", "PURE.tmpl", "STATE.template", "SCAN.balance", "SCAN.fallback", "LEX.dispatch"},
+		Technique: "transition-relation extraction of the tag state machine by abstract interpretation over the finite partition of its constants, walked with every tag spelling; guard/dataflow shape rules on the section parser and the renderer's cases; replacement-chain extraction of the escaper",
+	},
 	
 	{ID: "C11", Title: "The string scanner is a faithful cursor with position-only line/column",
 		Rules:     []string{"CUR.linerule", "CUR.range", "CUR.pure", "CUR.siblings", "CUR.unread", "PANIC.index"},
